@@ -106,6 +106,20 @@ Theorem raise_or_skip_as_configured :
 Proof. exact NetUdp.raise_or_skip_as_configured. Qed.
 Print Assumptions raise_or_skip_as_configured.
 
+(* ... and conversely, for ALL scripts: every documented exception that comes out of udp() is the
+   deadline, or is justified by the configuration and the datagram at the position reported *)
+Theorem errors_only_as_configured :
+  forall (parse : list Z -> pabs) q qwire where_ timeout af o evs now i e,
+  udp parse q qwire where_ timeout af o [] evs now = (i, Lib e) ->
+  (e = neTimeout /\ timeout <> None) \/
+  exists pre wire from rest, evs = pre ++ UData wire from :: rest /\ i = (length pre + 1)%nat /\
+    ( raised_as_configured parse af (Some where_) o (Some q) e wire from
+      \/ (e = neBadResponse /\ o_ignore_errors o = false /\ src_ok af from (Some where_) /\
+          exists m, from_wire_out (parse wire) (o_ignore_trailing o) (o_raise_on_truncation o) = POk m
+                    /\ ~ genuine q m) ).
+Proof. exact udp_error_sound. Qed.
+Print Assumptions errors_only_as_configured.
+
 (* a genuine truncated reply is reported as truncation when asked *)
 Theorem truncation_reported :
   forall parse q qwire where_ timeout af o pre wire from rest now now',
